@@ -280,12 +280,16 @@ static void checkStr(String& s, const Bytes& m, const char* role, bool takeView)
   }
 }
 static const char* roleOf(int i) { return i == g_recv ? "receiver-content" : (i == g_a1 || i == g_a2) ? "argument-changed" : "bystander-changed"; }
+// growth observation: ctxOp() of a mutating operation notes the receiver's length / state class before the call; afterOp() sees whether the receiver grew and whether its
+// C-string view was taken (terminator checked) in the check that directly follows the operation
+static int g_preRecv = -1, g_preState = 0; static size_t g_preLen = 0; static const char* g_preOp = 0; static bool g_recvViewTaken = false;
 static void checkSlot(int i) {
   String& s = str(i); int st = stateOfSlot(i);
   if (st == ST_SHARED) g_sawShared = true;
   bool view = st != ST_UNTERM || R.below((u64)g_viewDen) == 0;
   checkStr(s, S[i].m, roleOf(i), view);
   if (view) eViewed(i);
+  if (i == g_recv) g_recvViewTaken = view;
 }
 static void checkAll() {
   for (int i = 0; i < NSLOT; ++i) if (S[i].s) checkSlot(i);
@@ -296,10 +300,21 @@ static void dropTemps() {
   for (int i = MAXV; i < NSLOT; ++i) if (S[i].s) { delete S[i].s; S[i].s = 0; S[i].src = -1; }
   g_nOpSrc = 0;
 }
+static void noteGrowth(int recv) {
+  if (recv < 0 || recv != g_preRecv || !g_preOp) { g_preRecv = -1; return; }
+  size_t now = S[recv].m.n; g_preRecv = -1;
+  if (now <= g_preLen) return;
+  char item[120]; snprintf(item, sizeof item, "%s|recv=%s%s", g_preOp, g_preLen ? "" : "EMPTY:", stName[g_preState]); setItem("growth_op_by_receiver_class", item);
+  if (!g_recvViewTaken) return;
+  cnt("growth_ops_view_checked_directly");
+  if (!g_preLen) { static const char* const gc[ST_N] = { "growth_from_empty_default_view_checked", "growth_from_empty_literal_attached_view_checked", "growth_from_empty_attached_unterminated_view_checked",
+      "growth_from_empty_owned_exclusive_view_checked", "growth_from_empty_owned_shared_view_checked" }; cnt(gc[g_preState]); cnt("growth_from_empty_view_checked"); }
+}
 static void afterOp(int recv, int a1 = -1, int a2 = -1, bool drop = true) {
-  g_recv = recv; g_a1 = a1; g_a2 = a2;
+  g_recv = recv; g_a1 = a1; g_a2 = a2; g_recvViewTaken = false;
   checkAll();
   cnt("ops");
+  noteGrowth(recv);
   if (drop) dropTemps();
 }
 
@@ -330,6 +345,7 @@ static void ctxOp(const char* op, int recv, int a1, int a2, bool mut) {
   bool selfShare = (a1 >= 0 && S[a1].argcls == A_COPY_SELF) || (a2 >= 0 && S[a2].argcls == A_COPY_SELF);
   if (self) { cnt("self_arg_ops"); g_selfArg = true; }
   if (selfShare) cnt("arg_shares_receiver_buffer_ops");
+  if (mut && recv >= 0) { g_preRecv = recv; g_preState = rs; g_preLen = S[recv].m.n; g_preOp = op; } else g_preRecv = -1;
   if (rs >= 0) {
     static const char* const rc[ST_N] = { "recv_empty_default", "recv_literal_attached", "recv_attached_unterminated", "recv_owned_exclusive", "recv_owned_shared" };
     cnt(rc[rs]);
@@ -496,29 +512,7 @@ static bool op_prependP(int i) {
   return true;
 }
 
-static bool op_resize(int i) {
-  size_t old = S[i].m.n, n; unsigned p = (unsigned)R.below(100);
-  if (p < 35) n = (size_t)R.below(old + 1); else if (p < 75) n = old + 1 + (size_t)R.below(8); else if (p < 90) n = genLen(); else n = old;
-  ctxOp("resize", i, -1, -1, true); hist.addf("v%d.resize(%lu) then fill through operator char*\n", i, (unsigned long)n);
-  str(i).resize(n); eMutated(i);
-  size_t keep = old < n ? old : n;
-  if (str(i).length() != n) failk("receiver-content", "length() = %lu after resize(%lu)", (unsigned long)str(i).length(), (unsigned long)n);
-#ifndef VERIF_NO_PRIVATE
-  const char* afterResize = str(i).data->str;
-#else
-  const char* afterResize = (const char*)(const String&)str(i);   // after resize() the String owns a terminated buffer: the view is that buffer
-#endif
-  if (keep && memcmp(afterResize, S[i].m.d, keep)) failk("receiver-content", "resize(%lu) did not preserve the first %lu bytes", (unsigned long)n, (unsigned long)keep);
-  u8* t = (u8*)malloc(n + 1); if (keep) memcpy(t, S[i].m.d, keep);
-  if (n > old) {   // bytes exposed by a growing resize are unspecified: write them through the mutable view before anything is compared
-    char* w = str(i);
-    if (str(i).length() != n) failk("receiver-content", "length() = %lu after operator char*() on a string of length %lu", (unsigned long)str(i).length(), (unsigned long)n);
-    for (size_t k = old; k < n; ++k) { t[k] = genChar(); w[k] = (char)t[k]; }
-  }
-  S[i].m.assign(t, n); free(t);
-  afterOp(i);
-  return true;
-}
+static bool op_resize(int i);   // defined behind the query operations (it runs const-view consumers on the resized String)
 
 static bool op_reserve(int i) {
   size_t len = S[i].m.n, n; unsigned p = (unsigned)R.below(100);
@@ -955,6 +949,180 @@ static bool op_capacity(int i) {
   return true;
 }
 
+
+// ================================================================================================ resize + growth from the empty state classes
+// Consumers of the const C-string view, run on the receiver DIRECTLY after an operation whose result bytes the harness has not written itself (resize): no mutable access
+// (operator char*, detach, any mutating member) lies between the operation and these calls. S[i].m holds the bytes the String has right now (for a growing resize: adopted
+// from the String, they are unspecified); no draw from the case's random stream depends on those bytes, so a replay re-executes the same calls whatever the heap held.
+static int constConsumers(int i, const char* what) {
+  char base[320]; snprintf(base, sizeof base, "%s", (const char*)ctx);
+  const size_t n = S[i].m.n;
+  unsigned k = (unsigned)R.below(6); size_t r1 = (size_t)R.below(1u << 30), r2 = (size_t)R.below(1u << 30), r3 = (size_t)R.below(1u << 30);
+  Bytes want;
+  { const Bytes& x = S[i].m;
+    switch (k) {
+    case 0: want = x; break;
+    case 1: want.assign(x.d, r1 % (n + 1)); break;
+    case 2: want = x; want.push(g_alpha[r2 % (size_t)g_nalpha]); break;
+    case 3: want = x; if (n) want.d[r1 % n] = g_alpha[r2 % (size_t)g_nalpha]; break;
+    case 4: { size_t a = r1 % (n + 1); want.assign(x.d + a, n - a); break; }
+    default: genBytes(want, genLen()); break;
+    } }
+  int a = mkArg(i, T0, &want);
+  const Bytes& x = S[i].m; const Bytes& y = S[a].m;
+  Bytes nd; if (n) { size_t p = r1 % n, room = n - p; nd.assign(x.d + p, 1 + r2 % (room < 3 ? room : 3)); } else nd.push(g_alpha[r2 % (size_t)g_nalpha]);
+  u8 c = n ? x.d[r3 % n] : g_alpha[0];
+  size_t len = r3 % ((x.n > y.n ? x.n : y.n) + 3), start = r2 % (n + 3);
+  setctxf("%s/then=const-consumers", base);
+  noteMatrix(what, stateOfSlot(i), S[a].argcls, stateOfSlot(a));
+  hist.addf("  const consumers on v%d (length %lu, %s): ==, startsWith/endsWith, find, compare ... against ", i, (unsigned long)n, what); if (a == i) hist.add("itself"); else hist.addf("%s of length %lu", argName[S[a].argcls], (unsigned long)y.n); hist.add("\n");
+  const String& s = str(i); const String& o = str(a);
+  long r, e;
+  // length-based members (any content)
+  bool eq = x.eq(y);
+  QCHECK((s == o) == eq, "operator== wrong, model %d", (int)eq); QCHECK((s != o) == !eq, "operator!= wrong, model %d", (int)!eq);
+  bool sw = y.n <= x.n && !memcmp(x.d, y.d, y.n), ew = y.n <= x.n && !memcmp(x.d + x.n - y.n, y.d, y.n);
+  QCHECK(s.startsWith(o) == sw, "startsWith wrong, model %d", (int)sw); QCHECK(s.endsWith(o) == ew, "endsWith wrong, model %d", (int)ew);
+  if (c) {   // (NUL as char needle is a precondition)
+    r = offOf(i, s.find((char)c)); e = mFindChar(x, 0, c); QCHECK(r == e, "find(char) at %ld, model %ld", r, e);
+    r = offOf(i, s.findLast((char)c)); e = mFindLastChar(x, c); QCHECK(r == e, "findLast(char) at %ld, model %ld", r, e);
+  }
+  cnt("const_consumer_rounds");
+  // C-string based members (statement: NUL-free contents only)
+  if (!x.hasNul() && !y.hasNul()) {
+    int cs = sgn(mCmp(x, y, false)), ci = sgn(mCmp(x, y, true)), cn = sgn(mCmpN(x, y, len, false)), cin = sgn(mCmpN(x, y, len, true)); int q;
+    q = s.compare(o); QCHECK(sgn(q) == cs, "compare returned %d, model sign %d", q, cs);
+    q = s.compare(o, len); QCHECK(sgn(q) == cn, "compare(len %lu) returned %d, model sign %d", (unsigned long)len, q, cn);
+    q = s.compareIgnoreCase(o); QCHECK(sgn(q) == ci, "compareIgnoreCase returned %d, model sign %d", q, ci);
+    q = s.compareIgnoreCase(o, len); QCHECK(sgn(q) == cin, "compareIgnoreCase(len %lu) returned %d, model sign %d", (unsigned long)len, q, cin);
+    QCHECK((s < o) == (cs < 0), "operator< wrong, model sign %d", cs); QCHECK((s >= o) == (cs >= 0), "operator>= wrong, model sign %d", cs);
+    bool eic = x.n == y.n && ci == 0; QCHECK(s.equalsIgnoreCase(o) == eic, "equalsIgnoreCase wrong, model %d", (int)eic);
+    if (c && !nd.hasNul()) {
+      const char* np = cstrOf(nd);
+      r = offOf(i, s.find((char)c, start)); e = start >= n ? -1 : mFindChar(x, start, c); QCHECK(r == e, "find(char,start %lu) at %ld, model %ld", (unsigned long)start, r, e);
+      r = offOf(i, s.find(np)); e = mFind(x, 0, nd.d, nd.n); QCHECK(r == e, "find(str) at %ld, model %ld", r, e);
+      r = offOf(i, s.find(np, start)); e = start >= n ? -1 : mFind(x, start, nd.d, nd.n); QCHECK(r == e, "find(str,start %lu) at %ld, model %ld", (unsigned long)start, r, e);
+      r = offOf(i, s.findOneOf(np)); e = mFindOneOf(x, 0, nd.d, nd.n); QCHECK(r == e, "findOneOf at %ld, model %ld", r, e);
+      r = offOf(i, s.findLast(np)); e = mFindLast(x, nd.d, nd.n); QCHECK(r == e, "findLast(str) at %ld, model %ld", r, e);
+      r = offOf(i, s.findLastOf(np)); e = mFindLastOf(x, nd.d, nd.n); QCHECK(r == e, "findLastOf at %ld, model %ld", r, e);
+      usize ts = 0; size_t ms = 0; Bytes tm; u8 sep = c; mToken(x, &sep, 1, ms, tm);
+      const String tok = s.token((char)c, ts); const char* tv = tok; ++g_resultChecks;
+      QCHECK(tok.length() == tm.n && !memcmp(tv, tm.d, tm.n) && tv[tm.n] == 0, "token(0x%02x) gave length %lu, model length %lu (or other bytes / no terminator)", c, (unsigned long)tok.length(), (unsigned long)tm.n);
+      QCHECK(ts == ms, "token advanced start to %lu, model %lu", (unsigned long)ts, (unsigned long)ms);
+    }
+    cnt("const_consumer_rounds_cstring");
+  }
+  // the argument's view is taken in any case (the compare family above did it if it ran), so that what follows does not depend on the unspecified bytes
+  { const char* ov = o; ++g_viewChecks; eViewed(a); if (o.length() != y.n || ov[y.n] != 0 || (y.n && memcmp(ov, y.d, y.n))) failk("argument-changed", "argument of the const queries differs from its model (length %lu, model %lu)", (unsigned long)o.length(), (unsigned long)y.n); }
+  // the view once more: still terminated at length(), still the same bytes
+  const char* v = s; ++g_viewChecks;
+  if (s.length() != n) failk("receiver-content", "length() changed from %lu to %lu during const queries", (unsigned long)n, (unsigned long)s.length());
+  if (v[n] != 0) failk("terminator", "const C-string view has byte 0x%02x instead of NUL at length() = %lu after const queries", (u8)v[n], (unsigned long)n);
+  if (n && memcmp(v, x.d, n)) failk("receiver-content", "content changed during const queries (length %lu)", (unsigned long)n);
+  setctxf("%s", base);
+  return a;
+}
+
+// resize(n): length, then DIRECTLY the const C-string view (terminator at length(), preserved prefix), then (sampled) const consumers on the untouched result; only after that
+// are the unspecified bytes of a growing resize written through the mutable view.
+static bool doResize(int i, size_t n) {
+  size_t old = S[i].m.n; int rs = stateOfSlot(i);
+  ctxOp("resize", i, -1, -1, true); hist.addf("v%d.resize(%lu)%s\n", i, (unsigned long)n, n > old ? " then const view, then fill through operator char*" : " then const view");
+  str(i).resize(n); eMutated(i);
+  size_t keep = old < n ? old : n;
+  if (str(i).length() != n) failk("receiver-content", "length() = %lu after resize(%lu)", (unsigned long)str(i).length(), (unsigned long)n);
+  { const String& cs = str(i);
+    const char* v; if (R.chance(1, 4)) v = str(i); else v = cs; ++g_viewChecks;   // operator const char*() const (3 of 4) or operator const char*() on the non-const object - nothing touched the String since resize() returned
+    if (cs.length() != n) failk("receiver-content", "length() = %lu after taking the const C-string view of a string resized to %lu", (unsigned long)cs.length(), (unsigned long)n);
+    if (v[n] != 0) failk("terminator", "const C-string view taken directly after resize(%lu) of a string of length %lu has byte 0x%02x instead of NUL at length()", (unsigned long)n, (unsigned long)old, (u8)v[n]);
+    if (keep && memcmp(v, S[i].m.d, keep)) failk("receiver-content", "resize(%lu) did not preserve the first %lu bytes", (unsigned long)n, (unsigned long)keep);
+    u8* t = (u8*)malloc(n + 1); if (n) memcpy(t, v, n); S[i].m.assign(t, n); free(t);   // the model adopts the (unspecified) exposed bytes until they are written below
+  }
+  cnt("resize_const_view_directly_checked");
+  { static const char* const g[ST_N] = { "resize_grow_empty_default", "resize_grow_literal_attached", "resize_grow_attached_unterminated", "resize_grow_owned_exclusive", "resize_grow_owned_shared" };
+    static const char* const z[ST_N] = { "resize_grow_from_length0_empty_default", "resize_grow_from_length0_literal_attached", "resize_grow_from_length0_attached_unterminated", "resize_grow_from_length0_owned_exclusive", "resize_grow_from_length0_owned_shared" };
+    static const char* const sh[ST_N] = { "resize_shrink_empty_default", "resize_shrink_literal_attached", "resize_shrink_attached_unterminated", "resize_shrink_owned_exclusive", "resize_shrink_owned_shared" };
+    if (n > old) { cnt(g[rs]); if (!old) { cnt(z[rs]); cnt("resize_grow_from_length0_const_view_checked"); } } else if (n < old) cnt(sh[rs]); }
+  int arg = -1;
+  if (R.chance(2, 3)) arg = constConsumers(i, n > old ? "resize-grow+const-consumers" : n < old ? "resize-shrink+const-consumers" : "resize-same+const-consumers");
+  if (n > old) {   // bytes exposed by a growing resize are unspecified: write them through the mutable view before the history goes on
+    char* w = str(i); eMutated(i);
+    if (str(i).length() != n) failk("receiver-content", "length() = %lu after operator char*() on a string of length %lu", (unsigned long)str(i).length(), (unsigned long)n);
+    for (size_t k = old; k < n; ++k) { u8 c = genChar(); w[k] = (char)c; S[i].m.d[k] = c; }
+    if (w[n] != 0) failk("terminator", "mutable view has byte 0x%02x instead of NUL at length() = %lu", (u8)w[n], (unsigned long)n);
+  }
+  afterOp(i, arg);
+  return true;
+}
+static bool op_resize(int i) {
+  size_t old = S[i].m.n, n; unsigned p = (unsigned)R.below(100);
+  if (p < 35) n = (size_t)R.below(old + 1); else if (p < 75) n = old + 1 + (size_t)R.below(8); else if (p < 90) n = genLen(); else n = old;
+  return doResize(i, n);
+}
+
+
+// Growth from every EMPTY state class: put the variable into one of the empty representations, apply one growth operation, then run a consumer of the const view.
+// (Every step is a full operation of its own: all variables are compared with their models after each.)
+enum { EK_DEFAULT, EK_LITERAL, EK_CLEAR, EK_CLEARED_SHARING_COPY, EK_CLEARED_OWNED, EK_ATTACH_TERM, EK_ATTACH_UNTERM, EK_CAPACITY, EK_RESERVED, EK_RESIZE0, EK_ASSIGNED_EMPTY, EK_BUF0, EK_SHARED_EMPTY, EK_N };
+static const char* const ekName[EK_N] = { "default-constructed", "literal-empty", "cleared-in-place", "cleared-copy-sharing-a-buffer", "cleared-owned-with-old-bytes", "attached-empty-terminated", "attached-empty-unterminated",
+  "String(capacity)", "default-then-reserve", "resize(0)", "assigned-from-String()", "String(buf,0)", "empty-owned-shared" };
+enum { GK_RESIZE, GK_APPEND_S, GK_APPEND_P, GK_APPEND_C, GK_PREPEND_S, GK_PREPEND_P, GK_JOIN, GK_RESERVE_APPEND, GK_PRINTF, GK_N };
+static const char* const gkName[GK_N] = { "resize", "append(String)", "append(buf+len)", "append(char)", "prepend(String)", "prepend(buf+len)", "join", "reserve+append(char)", "printf" };
+static bool op_emptyGrow(int i) {
+  int kind = (int)R.below(EK_N); Bytes none;
+  if ((kind == EK_CLEARED_SHARING_COPY || kind == EK_SHARED_EMPTY) && nvars < 2) kind = EK_DEFAULT;
+  int j = i; if (nvars >= 2) { j = (int)R.below((u64)nvars - 1); if (j >= i) ++j; }
+  hist.addf("# v%d: empty state '%s', then growth, then const consumer\n", i, ekName[kind]);
+  switch (kind) {
+  case EK_DEFAULT: ctxOp("String()", -1, -1, -1, false); hist.addf("v%d := String()\n", i); installNew(i, new String, none, -1, ST_EMPTY, 0, 0); afterOp(i); break;
+  case EK_LITERAL: { int src = literalSrc(none); ctxOp("String(literal)", -1, -1, -1, false); hist.addf("v%d := String(literal \"\")\n", i); String* ns = newLiteral(g_src[src].blk, 1);
+      installNew(i, ns, none, src, ST_LIT, 0, (const char*)g_src[src].blk); afterOp(i); break; }
+  case EK_CLEAR: op_clear(i); break;
+  case EK_CLEARED_SHARING_COPY: {
+      S[j].argcls = A_VAR; ctxOp("operator=(String)", i, j, -1, true); hist.addf("v%d = ", i); histSlot(j); hist.add("\n");
+      str(i) = str(j); S[i].m = S[j].m; eAssigned(i, j); afterOp(i, j);
+      op_clear(i); break; }
+  case EK_CLEARED_OWNED: { Bytes b; genBytes(b, 1 + genLen()); const char* p = cblock(b.d, b.n, false); ctxOp("String(buf+len)", -1, -1, -1, false); hist.addf("v%d := String(buf ", i); histVal(b); hist.add(")\n");
+      installNew(i, new String(p, b.n), b, -1, ST_EXCL, ++g_eg, 0); afterOp(i);
+      op_clear(i); break; }
+  case EK_ATTACH_TERM: case EK_ATTACH_UNTERM: { bool term = kind == EK_ATTACH_TERM; size_t off; int si = attachSrc(none, term, off);
+      ctxOp(term ? "attach/terminated" : "attach/unterminated", i, -1, -1, true); hist.addf("v%d.attach(%s \"\")\n", i, term ? "terminated" : "unterminated");
+      str(i).attach((const char*)g_src[si].blk + off, 0); S[i].m = none; S[i].src = si; eSet(i, term ? ST_LIT : ST_UNTERM, (const char*)g_src[si].blk + off); afterOp(i); break; }
+  case EK_CAPACITY: case EK_SHARED_EMPTY: { size_t cap = genLen(); ctxOp("String(capacity)", -1, -1, -1, false); hist.addf("v%d := String(capacity %lu)\n", i, (unsigned long)cap);
+      installNew(i, new String((usize)cap), none, -1, ST_EXCL, ++g_eg, 0); afterOp(i);
+      if (kind == EK_SHARED_EMPTY) { S[i].argcls = A_VAR; ctxOp("operator=(String)", j, i, -1, true); hist.addf("v%d = ", j); histSlot(i); hist.add("\n"); str(j) = str(i); S[j].m = none; eAssigned(j, i); afterOp(j, i); }
+      break; }
+  case EK_RESERVED: { ctxOp("String()", -1, -1, -1, false); hist.addf("v%d := String()\n", i); installNew(i, new String, none, -1, ST_EMPTY, 0, 0); afterOp(i);
+      size_t cap = genLen(); ctxOp("reserve", i, -1, -1, true); hist.addf("v%d.reserve(%lu)\n", i, (unsigned long)cap); str(i).reserve(cap); eMutated(i);
+      if (str(i).capacity() < cap) failk("capacity", "capacity() = %lu after reserve(%lu) on an empty string", (unsigned long)str(i).capacity(), (unsigned long)cap);
+      afterOp(i); break; }
+  case EK_RESIZE0: doResize(i, 0); break;
+  case EK_ASSIGNED_EMPTY: { ctxOp("operator=(String)/from-empty-temporary", i, -1, -1, true); hist.addf("v%d = String()\n", i); str(i) = String(); S[i].m = none; eOwn(i); afterOp(i); break; }
+  default: { const char* p = cblock("", 0, false); unsigned v = (unsigned)R.below(3);
+      ctxOp(v == 0 ? "String(buf+len)" : v == 1 ? "String(len+char)" : "fromCString(buf+len)", -1, -1, -1, false); hist.addf("v%d := %s\n", i, v == 0 ? "String(buf, 0)" : v == 1 ? "String(0, 'x')" : "fromCString(buf, 0)");
+      String* ns = v == 0 ? new String(p, 0) : v == 1 ? new String((usize)0, 'x') : new String(String::fromCString(p, 0));
+      installNew(i, ns, none, -1, ST_EXCL, ++g_eg, 0); afterOp(i); break; }
+  }
+  if (S[i].m.n) harnessBug("emptyGrow: variable is not empty after setup %s", ekName[kind]);
+  int g = (int)R.below(GK_N); if (g_nul && g == GK_PRINTF) g = GK_RESIZE;
+  if (R.chance(1, 3)) g = GK_RESIZE;
+  bool ran = true;
+  switch (g) {
+  case GK_RESIZE: { size_t n = R.chance(1, 2) ? 1 + (size_t)R.below(8) : genLen(); if (!n) n = 1; doResize(i, n); break; }
+  case GK_APPEND_S: ran = op_appendS(i); break;
+  case GK_APPEND_P: ran = op_appendP(i); break;
+  case GK_APPEND_C: ran = op_appendC(i); break;
+  case GK_PREPEND_S: ran = op_prependS(i); break;
+  case GK_PREPEND_P: ran = op_prependP(i); break;
+  case GK_JOIN: ran = op_join(i); break;
+  case GK_RESERVE_APPEND: op_reserve(i); ran = op_appendC(i); break;
+  default: ran = op_printf(i); break;
+  }
+  if (ran) { char item[96]; snprintf(item, sizeof item, "%s|%s", ekName[kind], gkName[g]); setItem("empty_state_x_growth_op", item); cnt("empty_state_growth_sequences"); if (S[i].m.n) cnt("empty_state_growth_sequences_grown"); }
+  switch ((int)R.below(g_nul ? 3 : 5)) { case 0: op_eq(i); break; case 1: op_find(i); break; case 2: op_prefix(i); break; case 3: op_cmp(i); break; default: op_token(i); break; }
+  return true;
+}
+
 // ================================================================================================ case driver
 struct OpDef { const char* name; bool (*fn)(int); bool nulSafe; int w; };
 static const OpDef OPS[] = {
@@ -965,6 +1133,7 @@ static const OpDef OPS[] = {
   { "printf", op_printf, false, 4 }, { "fromPrintf", op_fromPrintf, false, 3 }, { "join", op_join, true, 4 },
   { "substr", op_substr, true, 6 }, { "token", op_token, false, 5 }, { "plus", op_plus, true, 5 }, { "split", op_split, false, 5 },
   { "eq", op_eq, true, 4 }, { "cmp", op_cmp, false, 5 }, { "find", op_find, true, 5 }, { "prefix", op_prefix, true, 4 }, { "static", op_static, false, 2 }, { "capacity", op_capacity, true, 1 },
+  { "emptyGrow", op_emptyGrow, true, 4 },
 };
 enum { NOPS = sizeof OPS / sizeof *OPS };
 static char g_opCntName[NOPS][40];
